@@ -292,7 +292,14 @@ def r05f(model, ctx):
               "of that expression, unchanged", f"{CORO}:{fn.lineno}")
 
 
-RULES = [
+
+def r08h_shared(model, ctx):
+    """the trigger machinery (shared with C08): what a testbench is told when it awaits a tick, an edge, a change or a delay"""
+    from . import c08
+    c08.r08h(model, ctx)
+
+
+RULES = [("R-08h", r08h_shared), 
     ("R-05f", r05f), ("R-05a", r05a), ("R-05b", r05b), ("R-05c", r05c), ("R-05d", r05d), ("R-05e", r05e),
     ("R-01a", _only_pyeval(c01.r01a, _is_eval)), ("R-01b", _only_pyeval(c01.r01b, _is_eval)),
     ("R-01d", c01.r01d), ("R-01g", _only_pyeval(c01.r01g, _is_eval)), ("R-01h", _only_pyeval(c01.r01h, _is_eval)),
